@@ -738,11 +738,39 @@ def _eval(spec):
     return res
 
 
+def _grown_registry(spec):
+    """A fresh registry object that held only the first `grow` extensions when the same expression / HUGR was
+    resolved against it once, and received the others afterwards: what is replaced must depend on what the
+    registry holds when resolving, not on what it held at an earlier resolution."""
+    from hugr.ext import ExtensionRegistry
+    from hugr.hugr import Hugr
+
+    r = ExtensionRegistry()
+    ents = spec["reg"]
+    for ent in ents[: spec["grow"]]:
+        r.add_extension(_std_ext(ent[1], ent[2]) if ent[0] == "std" else _gen_ext(ent[1]))
+    try:  # the earlier resolution (on a throw-away copy)
+        k = spec["kind"]
+        if k == "ty":
+            bridge.build_type(spec["t"]).resolve(r)
+        elif k == "arg":
+            bridge.build_arg(spec["t"]).resolve(r)
+        elif k == "op":
+            Hugr(bridge.build_op(spec["op"])).resolve_extensions(r)
+        else:
+            Hugr.load_json(doc_of(spec["src"])).resolve_extensions(r)
+    except Exception:  # noqa: BLE001
+        pass
+    for ent in ents[spec["grow"]:]:
+        r.add_extension(_std_ext(ent[1], ent[2]) if ent[0] == "std" else _gen_ext(ent[1]))
+    return r
+
+
 def _eval_uncached(spec):
     from hugr.hugr import Hugr
 
     try:
-        reg = build_registry(spec["reg"])
+        reg = build_registry(spec["reg"]) if spec.get("grow") is None else _grown_registry(spec)
     except Exception as e:  # noqa: BLE001
         return ("build-failed", repr(e)[:200])
     k = spec["kind"]
@@ -1206,15 +1234,22 @@ def corpus():
     ]
 
 
+def _grow(rng, c):
+    """every fifth case: the registry is grown to its final content after an earlier resolution"""
+    if c.get("reg") and rng.random() < 0.2:
+        c = {**c, "grow": rng.randrange(len(c["reg"]))}
+    return c
+
+
 def cases(rng, tier):
     n_ty, n_op, n_doc = {"quick": (2600, 900, 170), "thorough": (50000, 17000, 3200)}.get(tier, (40000, 12000, 1500))
     for i in range(max(n_ty, n_op, n_doc)):
         if i < n_ty:
-            yield gen_ty_case(rng)
+            yield _grow(rng, gen_ty_case(rng))
         if i < n_op:
-            yield gen_op_case(rng)
+            yield _grow(rng, gen_op_case(rng))
         if i < n_doc:
-            docs = gen_doc_cases(rng)
+            docs = [_grow(rng, d) for d in gen_doc_cases(rng)]
             yield from docs
             if i % 8 == 0:
                 yield {"kind": "reg", "reg": docs[0]["reg"]}
@@ -1235,6 +1270,7 @@ def stats(spec, obs, counters):
     if spec["kind"] == "reg":
         return
     n = len(spec["reg"])
+    counters["registry.grown-after-an-earlier-resolution"] += spec.get("grow") is not None
     counters["registry.empty" if n == 0 else f"registry.{min(n, 4)}{'+' if n >= 4 else ''}-extensions"] += 1
     if obs == "build-failed":
         counters["outcome.build-failed"] += 1
